@@ -265,7 +265,7 @@ def _fn_of(it, site) -> str:
     return best.qual.split("::")[1] if best else "<module>"
 
 
-def r084(an, rep, rule="R08.4"):
+def r084(an, rep, rule="R08.4", nan_sign_matters=False):
     tg = an.tg
     prog = an.prog
     eqm = prog.cls("code_data::Constant").methods.get("__eq__")
@@ -372,7 +372,9 @@ def r084(an, rep, rule="R08.4"):
          ("inf", float("inf")), ("'a'", "a"), ("b'a'", b"a"), ("None", None), ("...", Ellipsis),
          ("0j", complex(0.0, 0.0)), ("-0j", complex(0.0, -0.0)), ("(-0.0+0j)", complex(-0.0, 0.0)), ("complex(nan,0)", complex(nan, 0.0)), ("complex(-nan,0)", complex(nnan, 0.0)),
          ("(1,)", (1,)), ("(True,)", (True,)), ("(1.0,)", (1.0,)), ("(0.0,)", (0.0,)), ("(-0.0,)", (-0.0,)), ("(nan,)", (nan,)), ("(-nan,)", (nnan,)),
-         ("frozenset({1})", frozenset({1})), ("frozenset({True})", frozenset({True})), ("frozenset({0.0})", frozenset({0.0})), ("frozenset({-0.0})", frozenset({-0.0}))]
+         ("frozenset({1})", frozenset({1})), ("frozenset({True})", frozenset({True})), ("frozenset({0.0})", frozenset({0.0})), ("frozenset({-0.0})", frozenset({-0.0})),
+         # two NaN objects are two elements of a set (nan != nan): identifying NaNs cannot make a 2-element constant equal to a 1-element one
+         ("frozenset({nan})", frozenset({nan})), ("frozenset({nan, nan'})", frozenset({nan, nnan})), ("frozenset({nan, 7})", frozenset({nan, 7}))]
 
     def refkey(v):
         if isinstance(v, float):
@@ -382,7 +384,8 @@ def r084(an, rep, rule="R08.4"):
         if isinstance(v, tuple):
             return ("tuple",) + tuple(refkey(x) for x in v)
         if isinstance(v, frozenset):
-            return ("frozenset", frozenset(refkey(x) for x in v))
+            ks = [refkey(x) for x in v]
+            return ("frozenset", frozenset((k, ks.count(k)) for k in ks))
         return (type(v).__name__, v)
     try:
         keys = [(nm, pe.call(kf.node, v), refkey(v)) for nm, v in W]
@@ -400,6 +403,16 @@ def r084(an, rep, rule="R08.4"):
                 badpairs.append(f"{keys[i][0]} and {keys[j][0]} are {'identified' if same else 'kept apart'}, CPython's constant table (with all NaNs identified) {'keeps them apart' if same else 'identifies them'}")
     rep.add(rule, f"{kf.qual}::witness constants are partitioned like CPython's constant table", not badpairs, loc(kf.module, kf.node),
             "; ".join(badpairs[:3]) if badpairs else f"{len(W)} witness constants ({len(W) * (len(W) - 1) // 2} pairs): key equality == CPython identity with NaNs identified")
+    if nan_sign_matters:
+        # where behaviour is compared (C05), the sign bit of a NaN is observable (math.copysign, struct.pack): CPython keeps nan and -nan as two constants
+        try:
+            same = pe.call(kf.node, nan) == pe.call(kf.node, nnan)
+        except FevalError as ex:
+            raise AnalysisError(f"{kf.qual}: key function not evaluable on NaN witnesses: {ex}")
+        rep.add(rule, f"{kf.qual}::NaN constants of opposite sign are kept apart", not same, loc(kf.module, kf.node),
+                "nan and -nan get different keys" if not same else
+                "nan and -nan get the same key: `x = 1e999-1e999; y = -(1e999-1e999)` holds two NaN constants with opposite sign bits; with the position overrides stripped by normalize() "
+                "the encoder merges them, so `math.copysign(1, y)` changes from 1.0 to -1.0 - the re-encoded program prints something else")
     # CodeData arm of the outer key function
     if kf is not cur:
         arms2, _ = isinstance_arms(kf, kf.params[0])
